@@ -64,9 +64,20 @@ def _wf(ks, docs) -> bool:
     return not pending
 
 
-def check(ks: $$KT$$, docs: $$DT$$, flags: List[bool]) -> bool:
+def _lines_ok(lines, docs) -> bool:
+    """start lines as a lexer can assign them: the first item starts at line >= 1; an item starts on the line where the
+    previous one ends or later (several commands may share a line; a documented item occupies 4 lines)"""
+    if lines[0] < 1:
+        return False
+    for i in range(1, N):
+        if lines[i] < lines[i - 1] + (3 if docs[i - 1] else 0):
+            return False
+    return True
+
+
+def check(ks: $$KT$$, docs: $$DT$$, flags: List[bool], lines: $$KT$$) -> bool:
     """
-    pre: _wf(ks, docs)
+    pre: _wf(ks, docs) and _lines_ok(lines, docs)
     pre: (len(flags) == 10) if SYMFLAGS else (len(flags) == 0)
     post: _
     """
@@ -85,8 +96,8 @@ def check(ks: $$KT$$, docs: $$DT$$, flags: List[bool]) -> bool:
             a[0] = a[0] + str(i) if k not in ("cpp_attr",) else a[0]
         cmds.append(prog.cmd(k, a, DOC if docs[i] else None, "d" + chr(10)))
     try:
-        got = prog.real_page(cmds, settings)
+        got = prog.real_page(cmds, settings, lines=list(lines))
     except Exception:
-        return hc.report(False, ks=ks, docs=docs, flags=flags)
+        return hc.report(False, ks=ks, docs=docs, flags=flags, lines=lines)
     exp = prog.spec_page(cmds, flags=fl)
-    return hc.report(got == exp, ks=ks, docs=docs, flags=flags)
+    return hc.report(got == exp, ks=ks, docs=docs, flags=flags, lines=lines)
